@@ -627,7 +627,7 @@ impl <N: Alphanumeric> ArrayStringManipulate<N> for Array<N> {
                 str.remove(0);
                 prefix = "-";
             }
-            let zeros_len = width - prefix.len();
+            let zeros_len = width.saturating_sub(prefix.len());
             if str.len() < zeros_len {
                 for _ in 0..zeros_len - str.len() { str.insert(0, '0') }
             }
